@@ -332,7 +332,8 @@ static const int WS[] = {-1, 0, 4, 7, 8, 16, 32, 64};
 static void sweep_box() {
     bool th = opts().tier == "thorough";
     int shard = (int)opts().shard, ns = (int)opts().nshards, counter = 0;
-    for (int be = 0; be <= 8; be++)
+    for (int be = 0; be <= 8; be++) {
+        if (!th && (be == 2 || be == 5 || be == 8)) continue;      // quick: one uninstalled back end (id 1) stands for the others
         for (int k = -1; k <= 33; k++) for (int m = -1; m <= 33; m++)
             for (int hd = 0; hd <= 7; hd++) for (int wi = 0; wi < 8; wi++) {
                 if (!th) {
@@ -346,6 +347,7 @@ static void sweep_box() {
                 cfg_to(c, g);
                 sweep_case(c, run_box);
             }
+    }
     stats().exhaustive = th;
     stats().extra["box_backends"] = 9;
 }
